@@ -135,6 +135,27 @@ theorem isothermal_level_takes_largest (tol : Rat) (T H : List Rat) (u : ULevel)
       · exact Or.inl h'
       · exact Or.inr ⟨h, h'⟩
 
+/-- **Return-temperature side of a gliding utility — code-shaped.**  A utility that glides linearly
+    from supply to target and is given the duty `d = _maximise_utility_duty(…)` still has to release
+    `d · (T_row − t_target) / |t_target − t_supply|` beyond a row lying past its target temperature.
+    For EVERY valid interval past the target (`tol < −dtTar`, hot: `−dtTar = T_lower − t_target`;
+    cold: `t_target − T_upper`) that share fits the load `qCur` the profile still holds at that row:
+    `d · (−dtTar) ≤ qCur · |t_target − t_supply|`.  (With `Q_tt.max()` in place of `.min()` — seeded
+    change C09-glide-cap-max — this statement is false of the code.) -/
+theorem gliding_level_respects_return_limit (tol : Rat) (htol : 0 ≤ tol) (T H : List Rat) (u : ULevel)
+    (isHot : Bool) (qA : Rat) (c : Cand) (hc : c ∈ candidates tol T H u isHot qA) (hpast : tol < -c.dtTar) :
+    maximiseUtilityDuty tol T H u isHot qA * (-c.dtTar) ≤ c.qCur * rabs (u.tt - u.ts) ∨
+    maximiseUtilityDuty tol T H u isHot qA = 0 :=
+  maximise_return_limit tol T H u isHot qA c hc hpast htol
+
+/-- Non-vacuity: a loop gliding 210 → 120 on the profile 500 → 300 → 0 over 200/150/100 with a further
+    row at 130: the interval ending at 130 lies past nothing (130 > 120 is past the target), and the
+    duty is capped by what the profile holds there. -/
+example : maximiseUtilityDuty Gen.tol [200, 150, 130, 100] [500, 300, 40, 0] ⟨210, 120⟩ true 0 = 360 ∧
+    (candidates Gen.tol [200, 150, 130, 100] [500, 300, 40, 0] ⟨210, 120⟩ true 0).map (fun c => (c.qCur, c.dtTar))
+      = [(300, -30), (40, -10), (0, 20)] := by
+  constructor <;> decide +kernel
+
 /-- Non-vacuity (heating profile 500 → 300 → 0 over 200/150/100): an isothermal level at 160 takes
     the 300 it reaches and the level at 210 the rest; a loop gliding 210 → 120 may take all 500. -/
 example : assignLoop Gen.tol [200, 150, 100] [500, 300, 0] true 500 0 [⟨160, 160⟩, ⟨210, 210⟩] = [300, 200] ∧
